@@ -268,3 +268,55 @@ func VerifC15OneMessageType() {
 	}
 	rt.Assert((err == nil) == same, "a proposal is accepted exactly when all of its messages are of one type")
 }
+
+// VerifC15SubmitActivation: MsgSubmitProposal of a text proposal (no messages, free-form
+// metadata) with a symbolic initial deposit, under a non-zero or zero minimum-initial-deposit
+// ratio. The proposal is accepted only with at least ratio x minimum as initial deposit, and it
+// enters voting at submission only if the initial deposit alone reaches the full minimum deposit;
+// the module account receives exactly the initial deposit.
+func VerifC15SubmitActivation() {
+	_, ctx, k, bank := verifC15Full()
+	module := models.ModuleAddress(govtypes.ModuleName)
+	denom := fxtypes.DefaultDenom
+	params := govv1.DefaultParams()
+	params.MinDeposit = sdk.NewCoins(sdk.NewCoin(denom, sdkmath.NewInt(10000)))
+	params.MinDepositRatio = "0"
+	withRatio := rt.Bool("minInitialDepositRatioSet")
+	params.MinInitialDepositRatio = "0"
+	if withRatio {
+		params.MinInitialDepositRatio = "0.5"
+	}
+	if err := k.Params.Set(ctx, params); err != nil {
+		panic(err)
+	}
+	proposer := sdk.AccAddress([]byte{0xa1, 1, 1, 1, 1, 1, 1, 1, 1, 1, 1, 1, 1, 1, 1, 1, 1, 1, 1, 1})
+	wallet := verifC15Amount("proposer.wallet")
+	bank.SetBalance(proposer, denom, wallet)
+	x := verifC15Amount("initialDeposit")
+	rt.Assume(x.IsPositive())
+	rt.Cover("state-built")
+	srv := msgServer{Keeper: k}
+	resp, err := srv.SubmitProposal(ctx, &govv1.MsgSubmitProposal{Title: "t", Summary: "s", Metadata: "plain text", Proposer: proposer.String(),
+		InitialDeposit: sdk.NewCoins(sdk.NewCoin(denom, x))})
+	if err != nil {
+		rt.Cover("refused")
+		return
+	}
+	rt.Cover("submitted")
+	if withRatio {
+		rt.Assert(x.GTE(sdkmath.NewInt(5000)), "a proposal is accepted only with the configured share of the minimum deposit as initial deposit")
+	}
+	rt.Assert(bank.Balance(module, denom).Equal(x), "the module account holds exactly the initial deposit")
+	got, gerr := k.Proposals.Get(ctx, resp.ProposalId)
+	if gerr != nil {
+		rt.Assert(false, "the submitted proposal is stored")
+		return
+	}
+	inVoting := got.Status == govv1.StatusVotingPeriod
+	rt.Assert(inVoting == x.GTE(sdkmath.NewInt(10000)), "a proposal enters voting at submission exactly when its initial deposit reaches the full minimum deposit")
+	if inVoting {
+		rt.Cover("activated")
+	} else {
+		rt.Cover("collecting")
+	}
+}
